@@ -1040,10 +1040,12 @@ impl Session {
             return Ok(());
         }
 
-        // Increment packet counter
+        // Increment packet counter. Session packets are numbered from 1:
+        // packet 0 is the authentication preamble (line 0 of the scheme).
         let pkt = self
             .pkt_counter
-            .fetch_add(1, std::sync::atomic::Ordering::SeqCst);
+            .fetch_add(1, std::sync::atomic::Ordering::SeqCst)
+            + 1;
         #[cfg(feature = "verif")]
         crate::verif::point("wp.after_counter").await;
         let padding_factory = {
